@@ -11,9 +11,17 @@ for tid in range(1, spec["random"][tier] + 1):
     docs, safes = spec["gen"](rng, spec.get("max_stages", 2))
     hs.append((tid, docs, safes))
 life = bool(spec.get("lifecycle"))
+wd = tlc.workdir("edrift")
+if spec.get("rec_files"):
+    recdir = os.path.join(wd, "recfiles"); os.makedirs(recdir, exist_ok=True)
+    for name, sd in spec["rec_files"].items():
+        open(os.path.join(recdir, name), "w").write(S.render_doc(sd))
+    json.dump([{"name": n, "doc": sd} for n, sd in sorted(spec["rec_files"].items())], open(os.path.join(recdir, "rec_files.json"), "w"))
+    os.environ["REC_FILES"] = os.path.join(recdir, "rec_files.json"); os.chdir(recdir)
 traces = [t for t in evalfam.record(hs, life, bool(spec.get("with_docs")))]
 usable = [t for t in traces if "skip" not in t]
 wd = tlc.workdir("edrift")
+import registry as _r
 rows, st, tr = evalfam.validate(prop, usable, wd)
 bad = [t for t in usable if rows[t["tid"]][0] != "ok" or rows[t["tid"]][1] == "violated" or rows[t["tid"]][2] == "violated"]
 print("drift/violations:", len(bad), "of", len(usable))
